@@ -222,6 +222,17 @@ def lock_typestate(ctx: Ctx, rule: str) -> None:
     w = withs[0]
     fd = w.items[0].optional_vars.id
     lockfile = ast.unparse(w.items[0].context_expr.args[0])
+    named = {}
+    for a_ in ast.walk(fn.node):
+        if isinstance(a_, ast.Assign) and len(a_.targets) == 1 and isinstance(a_.targets[0], ast.Name):
+            named.setdefault(a_.targets[0].id, []).append(a_.value)
+
+    def flag_text(arg: ast.AST) -> str:
+        """The lock operation argument; a local naming a constant expression (nonblocking_exclusive = LOCK_EX | LOCK_NB) is that expression."""
+        if isinstance(arg, ast.Name) and len(named.get(arg.id, [])) == 1 and not any(isinstance(x, ast.Call) for x in ast.walk(named[arg.id][0])):
+            return ast.unparse(named[arg.id][0])
+        return ast.unparse(arg)
+
     defs = [s for s in fn.node.body if isinstance(s, ast.Assign) and ast.unparse(s.targets[0]) == lockfile]
     ok_name = len(defs) == 1 and ast.unparse(defs[0].value) == f"{fn.params()[0]} + '.lock'"
     ctx.record(rule + "o", "PAIR", fref, "descriptor from `with open(<resource>.lock, 'wb') as fd` (closed on every exit, lock dies with the process)", ok_name,
@@ -238,7 +249,7 @@ def lock_typestate(ctx: Ctx, rule: str) -> None:
     if ok_try:
         t = tries[0]
         lock_calls = [c for c in calls_in(ast.Module(body=t.body, type_ignores=[])) if dotted(c.func) == "fcntl.lockf"]
-        flags = ast.unparse(lock_calls[0].args[1]) if lock_calls and len(lock_calls[0].args) > 1 else ""
+        flags = flag_text(lock_calls[0].args[1]) if lock_calls and len(lock_calls[0].args) > 1 else ""
         ok_try = (len(lock_calls) == 1 and ast.unparse(lock_calls[0].args[0]) == fd and "fcntl.LOCK_EX" in flags and "fcntl.LOCK_NB" in flags
                   and len(t.body) == 1)
         # success leaves the loop (a flag may be set on the way; nothing is called)
@@ -273,7 +284,7 @@ def lock_typestate(ctx: Ctx, rule: str) -> None:
 
     def is_lock(c, how):
         return isinstance(c, ast.Call) and dotted(c.func) == "fcntl.lockf" and len(c.args) == 2 and ast.unparse(c.args[0]) == fd and (
-            ("fcntl.LOCK_EX" in ast.unparse(c.args[1]) and "fcntl.LOCK_NB" in ast.unparse(c.args[1])) if how == "ex" else ast.unparse(c.args[1]) == "fcntl.LOCK_UN")
+            ("fcntl.LOCK_EX" in flag_text(c.args[1]) and "fcntl.LOCK_NB" in flag_text(c.args[1])) if how == "ex" else flag_text(c.args[1]) == "fcntl.LOCK_UN")
 
     views = function_views(ctx, fref, None)
     n_locked, bad_path, no_unlock = 0, None, None
